@@ -535,6 +535,14 @@ func dirArgs(s string) []kvstore.IterDirection {
 	}
 }
 
+// scribble overwrites a buffer the harness owns (an argument after the call returned, a result after it was recorded):
+// if the store kept or handed out a reference instead of a copy, its content changes without any call.
+func scribble(b []byte) {
+	for i := range b {
+		b[i] ^= 0xa5
+	}
+}
+
 // exec performs one call and returns the recorded operations (several for a commit).
 // inCallback, if not nil, is run inside the first consumer call of an iteration.
 func (w *world) exec(c *call, inCallback func()) []*hop {
@@ -573,6 +581,7 @@ func (w *world) exec(c *call, inCallback func()) []*hop {
 			o.out = errAns(err)
 		} else {
 			o.out = "val " + hx.Hex(v)
+			scribble(v) // the caller owns what Get returned: overwriting it must not reach the store
 		}
 	case "has":
 		o = hop{kind: "has", key: fk}
@@ -587,10 +596,15 @@ func (w *world) exec(c *call, inCallback func()) []*hop {
 	case "set":
 		o = hop{kind: "set", key: fk, val: c.val}
 		o.inv = w.clock.Add(1)
-		err := vr.v.Set([]byte(c.key), []byte(c.val))
+		kbuf, vbuf := []byte(c.key), []byte(c.val)
+		err := vr.v.Set(kbuf, vbuf)
 		o.ret = w.clock.Add(1)
 		o.out = errAns(err)
 		o.mayApply = w.flush && o.out == "closed"
+		if len(vbuf) <= 64 {
+			scribble(kbuf) // the caller owns its buffers again once Set has returned
+			scribble(vbuf)
+		}
 	case "del":
 		o = hop{kind: "del", key: fk}
 		o.inv = w.clock.Add(1)
@@ -629,6 +643,10 @@ func (w *world) exec(c *call, inCallback func()) []*hop {
 			err = vr.v.Iterate([]byte(c.key), func(k kvstore.Key, v kvstore.Value) bool {
 				calls++
 				sb.WriteString(" " + hx.Hex(k) + ":" + hx.Hex(v))
+				if len(v) <= 64 {
+					scribble(k)
+					scribble(v)
+				}
 				if calls == 1 && inCallback != nil {
 					inCallback()
 				} else if c.yield {
@@ -658,9 +676,14 @@ func (w *world) exec(c *call, inCallback func()) []*hop {
 			o.out = sb.String()
 		}
 	case "commit":
+		// Batched is a flag-only call of its own: recorded like WithRealm / Flush
+		fl := &hop{kind: "flag"}
+		fl.inv = w.clock.Add(1)
 		b, err := vr.v.Batched()
+		fl.ret = w.clock.Add(1)
+		fl.out = errAns(err)
 		if err != nil || len(c.writes) == 0 {
-			return nil // nothing touched the map
+			return []*hop{fl} // nothing touched the map
 		}
 		for _, wr := range c.writes {
 			if wr.kind == "set" {
@@ -683,7 +706,7 @@ func (w *world) exec(c *call, inCallback func()) []*hop {
 			}
 			w.prev.Store(c.g, b)
 		}
-		var out []*hop
+		out := []*hop{fl}
 		// the batch's effect per key is its LAST call for that key (C04: last operation per key wins), applied as one write
 		last := map[string]int{}
 		for i, wr := range c.writes {
@@ -981,13 +1004,16 @@ func runTorn(rng *hx.Rng, r *hx.Run) result {
 		go func(i int) {
 			defer wg.Done()
 			c := call{kind: "get", view: 0, key: "\x01\x00"}
+			if i == 2 { // the third reader takes the value out of an Iterate snapshot
+				c = call{kind: "iter", view: 0, key: "\x01\x00", dirTok: "fwd"}
+			}
 			<-start
 			for n := 0; !done.Load(); n++ {
 				ops := w.exec(&c, nil)
 				o := ops[0]
 				uniform := true
-				if strings.HasPrefix(o.out, "val ") {
-					v := hx.UnHex(o.out[4:])
+				if strings.HasPrefix(o.out, "val ") || strings.HasPrefix(o.out, "kvs 0100:") {
+					v := hx.UnHex(o.out[strings.LastIndexAny(o.out, " :")+1:])
 					for _, b := range v {
 						if b != v[0] {
 							uniform = false
@@ -1061,8 +1087,8 @@ func runTorn(rng *hx.Rng, r *hx.Run) result {
 		delete(keep, 1)
 		delete(keep, 2)
 		o := firstOf(bad)
-		r.Fail("uniform-value", fmt.Sprintf("Get returned a value mixing several generations of same-length overwrites (%s): first bytes %s … last bytes %s",
-			res.desc, o.out[4:12], o.out[len(o.out)-8:]), map[string]string{"oracle": "torn-value", "scenario": "torn", "op": "get"})
+		r.Fail("uniform-value", fmt.Sprintf("%s returned a value mixing several generations of same-length overwrites (%s): first bytes %s, last bytes %s",
+			o.kind, res.desc, o.out[9:17], o.out[len(o.out)-8:]), map[string]string{"oracle": "torn-value", "scenario": "torn", "op": o.kind})
 	}
 	for j, st := range sets {
 		if keep[j] {
